@@ -33,7 +33,7 @@ int main(void)
 		if (line[0] == '#' || line[0] == '\n') { fputs(line, stdout); continue; }
 		drv_split(line);
 		logn = 0;
-		cur_res = 0; cur_zero = 0;
+		cur_res = 0; cur_zero = 0; cur_nest = 0; in_nest = 0;
 		if (drv_nw < 2 || strcmp(drv_w[0], "xe")) { puts("bad-op"); continue; }
 		const char *op = drv_w[1];
 		uintptr_t id;
@@ -88,13 +88,14 @@ int main(void)
 			int ret = mpt_dispatch_emit(obj, &ev);
 			result_ret(ret, ev.id);
 		}
-		else if (!strcmp(op, "emit") && drv_nw == 5 && !strcmp(drv_w[2], "msg")) {
+		else if (!strcmp(op, "emit") && drv_nw == 5 && (!strcmp(drv_w[2], "msg") || !strcmp(drv_w[2], "cmd"))) {
 			event ev;
 			uint8_t *dat; size_t dlen; int isnull;
 			if (parse_res(drv_w[4]) || drv_parse_data(drv_w[3], &dat, &dlen, &isnull)) { puts("bad-op"); continue; }
 			if (isnull) { free(dat); puts("bad-op"); continue; }
 			message msg(dat, dlen);
 			ev.msg = &msg;
+			cur_nest = drv_w[2][0] == 'c';
 			int ret = mpt_dispatch_emit(obj, &ev);
 			result_ret(ret, ev.id);
 			free(dat);
